@@ -1,6 +1,7 @@
 import LcmProofs.SimStep
 import LcmProofs.IsMax
 import LcmModel.Kernels
+import LcmProofs.Tensor
 namespace Lcm
 
 /-! # C18 — maximisers returned by the arg-max primitives attain the maximum (partial)
@@ -98,6 +99,23 @@ theorem C18_segments_group_by_state {S C : Type} (ssGrid : List S) (scGrid : Lis
       = foldMax ((scGrid.filter (filt ((feasStates ssGrid scGrid filt)[k]))).map fun c =>
           g ((feasStates ssGrid scGrid filt)[k], c)) :=
   segMaxAt_combos ssGrid scGrid filt g k hk
+
+/-- "flattened position": the block over which `argmax` works enumerates the reduced axes in C order (row-major over the
+axes as listed, after `_move_axes_to_back` + `_flatten_last_n_axes`), so position `ravel shape idx` of the block is the
+multi-index `idx` - `jnp.unravel_index(position, shape)` recovers the maximiser -/
+theorem C18_flattened_c_order (shape idx : List Nat) (h : InBounds shape idx) :
+    (allIdx shape)[ravel shape idx]? = some idx := getElem_allIdx_ravel shape idx h
+
+theorem C18_block_size (shape : List Nat) : (allIdx shape).length = shape.prod := length_allIdx shape
+
+/-- the n-d primitive applies the block primitive per front index (definitional): position and maximum at a front index
+are `argmaxBlock` of the block of that front index -/
+theorem C18_argmaxND_per_front_index (a : Tensor Ext) (axes : List Nat) (mask : Option (Tensor Bool)) (fidx : List Nat) :
+    let ndim := a.shape.length
+    let block := allIdx (axes.map fun p => a.shape.getD p 0)
+    ((argmaxND a axes mask).1.get fidx, (argmaxND a axes mask).2.get fidx)
+      = argmaxBlock (block.map fun j => a.get (mergeIdx ndim axes fidx j))
+          (block.map fun j => match mask with | some mk => mk.get (mergeIdx ndim axes fidx j) | none => true) := rfl
 
 -- non-vacuity (ties, masks): first maximiser; all masked
 example : argmaxBlock [.fin 1, .fin 3, .fin 3, .fin 2] [true, true, true, true] = (1, .fin 3) := by decide +kernel
